@@ -293,22 +293,27 @@ def p_div_mono(a, d):
 
 
 def p_str(a, limit=12):
+    """canonical text: independent of atom interning order (terms and factors sorted by name)"""
     if not a:
         return "0"
-    out = []
-    for i, (m, c) in enumerate(sorted(a.items())):
-        if i >= limit:
-            out.append("... (%d terms)" % len(a))
-            break
-        ms = "*".join(("%r" % _ATOMS[x] if e == 1 else "%r^%d" % (_ATOMS[x], e)) for x, e in m)
+    terms = []
+    for m, c in a.items():
+        fs = sorted(("%r" % _ATOMS[x] if e == 1 else "%r^%d" % (_ATOMS[x], e)) for x, e in m)
+        ms = "*".join(fs)
+        deg = sum(e for _, e in m)
         if not ms:
-            out.append(str(c))
+            t = str(c)
         elif c == 1:
-            out.append(ms)
+            t = ms
         elif c == -1:
-            out.append("-" + ms)
+            t = "-" + ms
         else:
-            out.append("%s*%s" % (c, ms))
+            t = "%s*%s" % (c, ms)
+        terms.append((deg, ms, t))
+    terms.sort()
+    out = [t for _, _, t in terms[:limit]]
+    if len(terms) > limit:
+        out.append("... (%d terms)" % len(terms))
     return " + ".join(out).replace("+ -", "- ")
 
 
